@@ -122,6 +122,7 @@ class Recorder:
         self.observed = {}
         self.notes = []
         self.skipped = None
+        self.inconclusive_reasons = []
 
     # -- monitors -----------------------------------------------------
     def check(self, monitor, ok, detail=None, key=None):
@@ -172,6 +173,10 @@ class Recorder:
     def skip(self, reason):
         self.skipped = reason
 
+    def inconclusive(self, reason):
+        """The harness could not make the observation it needs (never a violation)."""
+        self.inconclusive_reasons.append(str(reason))
+
     def to_json(self):
         return {
             "id": self.case.get("id"),
@@ -183,6 +188,7 @@ class Recorder:
             "counters": self.counters,
             "observed": self.observed,
             "skipped": self.skipped,
+            "inconclusive": self.inconclusive_reasons,
         }
 
 
